@@ -86,7 +86,7 @@ func invokesReplayer(fn *ssa.Function, method string) bool {
 	if fn == nil || fn.Blocks == nil {
 		return false
 	}
-	eachInstr(fn, func(in ssa.Instruction) {
+	eachInstrDeep(fn, func(in ssa.Instruction) {
 		if _, ok := isInvoke(in, "sse", "Replayer", method); ok {
 			r = true
 		}
@@ -113,7 +113,7 @@ func findLoop(P *Program) *loopParts {
 				lp.next = x
 			}
 		case *ssa.Send:
-			if _, ok := isFieldLoad(x.Chan, "publishedMessage", "replayerErr"); ok {
+			if _, ok := isFieldLoad(x.Chan, "~", "type:chan<- error"); ok {
 				lp.replySends = append(lp.replySends, x)
 			}
 		case *ssa.MapUpdate:
@@ -136,7 +136,7 @@ func findLoop(P *Program) *loopParts {
 				}
 			}
 			if b, ok := isBuiltin(x, "close"); ok {
-				if _, ok := isFieldLoad(b.Common().Args[0], "publishedMessage", "replayerErr"); ok {
+				if _, ok := isFieldLoad(b.Common().Args[0], "~", "type:chan<- error"); ok {
 					lp.replyClose = b
 				}
 			}
@@ -186,7 +186,7 @@ func (P *Program) reachNoGo(roots ...*ssa.Function) map[*ssa.Function]bool {
 		for _, af := range f.AnonFuncs {
 			// a closure handed to `go` directly is a different goroutine
 			isGoTarget := false
-			eachInstr(f, func(in ssa.Instruction) {
+			eachInstrDeep(f, func(in ssa.Instruction) {
 				if g, ok := in.(*ssa.Go); ok {
 					if mc, ok := g.Call.Value.(*ssa.MakeClosure); ok && mc.Fn == ssa.Value(af) {
 						isGoTarget = true
@@ -214,7 +214,7 @@ func r03_1(c *Ctx) {
 	// the go statement is inside a closure passed to sync.Once.Do
 	onceOK := false
 	if par := jp.initFn.Parent(); par != nil {
-		eachInstr(par, func(in ssa.Instruction) {
+		eachInstrDeep(par, func(in ssa.Instruction) {
 			if call, ok := isStaticCall(in, "(*sync.Once).Do"); ok {
 				if mc, ok := call.Call.Args[1].(*ssa.MakeClosure); ok && mc.Fn == ssa.Value(jp.initFn) {
 					onceOK = true
@@ -230,7 +230,7 @@ func r03_1(c *Ctx) {
 		if !isJoeCode(P, fn) {
 			continue
 		}
-		eachInstr(fn, func(in ssa.Instruction) {
+		eachInstrDeep(fn, func(in ssa.Instruction) {
 			if g, ok := in.(*ssa.Go); ok && g != jp.goInstr {
 				nGo++
 				c.bad(fnLabel(fn)+":extra-go", P.ipos(in), "another goroutine is started in Joe's code: operations are no longer serialised by the single loop")
@@ -262,7 +262,7 @@ func r03_1(c *Ctx) {
 		if !inSSEPackage(fn) {
 			continue
 		}
-		eachInstr(fn, func(in ssa.Instruction) {
+		eachInstrDeep(fn, func(in ssa.Instruction) {
 			for _, m := range []string{"Put", "Replay"} {
 				if _, ok := isInvoke(in, "sse", "Replayer", m); ok {
 					check(fn, "invoke(Replayer."+m+")", in)
@@ -324,7 +324,7 @@ func r03_3(c *Ctx) {
 	// guard: topicsIntersect(sub.Topics, msg.topics) true edge
 	msg := lp.jp.recv("message")
 	isCurMsgTopics := func(v ssa.Value) bool {
-		base, ok := isFieldLoad(v, "messageWithTopics", "topics")
+		base, ok := isFieldLoad(v, "~", "type:[]string")
 		if !ok {
 			return false
 		}
@@ -460,7 +460,7 @@ func r03_6(c *Ctx) {
 	}
 	var sel *ssa.Select
 	var reply *ssa.MakeChan
-	eachInstr(fn, func(in ssa.Instruction) {
+	eachInstrDeep(fn, func(in ssa.Instruction) {
 		if s, ok := in.(*ssa.Select); ok {
 			sel = s
 		}
@@ -681,11 +681,11 @@ func r03_7(c *Ctx) {
 				g := false
 				for _, ifi := range ifsIn(fn) {
 					cnd := decodeIf(ifi)
-					if cnd.Y == nil || cnd.Op != token.EQL {
+					if cnd.Y == nil || (cnd.Op != token.EQL && cnd.Op != token.NEQ) {
 						continue
 					}
 					if (elemOf(cnd.X, fn.Params[0]) && elemOf(cnd.Y, fn.Params[1])) || (elemOf(cnd.X, fn.Params[1]) && elemOf(cnd.Y, fn.Params[0])) {
-						if edgeDominates(ifi.Block(), cnd.succWhen(true), ret.Block()) {
+						if edgeDominates(ifi.Block(), cnd.succWhen(cnd.Op == token.EQL), ret.Block()) {
 							g = true
 						}
 					}
@@ -743,7 +743,7 @@ func r04_2(c *Ctx) {
 	arg := send.Common().Args[0]
 	argOK := false
 	for _, sv := range sources(arg) {
-		base, ok := isFieldLoad(sv, "messageWithTopics", "message")
+		base, ok := isFieldLoad(sv, "~", "type:*Message")
 		argOK = ok && cellHoldsOnly(rootAddr(base), msg)
 		if !argOK {
 			break
@@ -752,12 +752,12 @@ func r04_2(c *Ctx) {
 	c.check(argOK, fnLabel(fn)+":send-arg", P.ipos(send), "Send receives the message field of the cell holding the published message", "Send's argument is not loaded from the cell that holds the published message (a copy captured before Put would carry no ID)")
 	// the store of Put's result into that field
 	var st *ssa.Store
-	eachInstr(fn, func(in ssa.Instruction) {
+	eachInstrDeep(fn, func(in ssa.Instruction) {
 		s, ok := in.(*ssa.Store)
 		if !ok {
 			return
 		}
-		if b, ok := isFieldSel(s.Addr, "messageWithTopics", "message"); ok && cellHoldsOnly(rootAddr(b), msg) {
+		if b, ok := isFieldSel(s.Addr, "~", "type:*Message"); ok && cellHoldsOnly(rootAddr(b), msg) {
 			if extractOfCallPred(lp.tryPut, 0)(s.Val) {
 				st = s
 			}
@@ -820,10 +820,10 @@ func r04_3(c *Ctx) {
 	}
 	// inserted key/value are the received subscription's done / Subscription
 	kOK, vOK := false, false
-	if b, ok := isFieldLoad(insert.Key, "subscription", "done"); ok && cellHoldsOnly(rootAddr(b), sub) {
+	if b, ok := isFieldLoad(insert.Key, "~", "type:subscriber"); ok && cellHoldsOnly(rootAddr(b), sub) {
 		kOK = true
 	}
-	if b, ok := isFieldLoad(insert.Value, "subscription", "Subscription"); ok && cellHoldsOnly(rootAddr(b), sub) {
+	if b, ok := isFieldLoad(insert.Value, "~", "type:Subscription"); ok && cellHoldsOnly(rootAddr(b), sub) {
 		vOK = true
 	}
 	c.check(kOK && vOK, name+":insert", P.ipos(insert), "the received subscription is registered under its own done channel", "the map insert does not register the received subscription under its own done channel")
@@ -834,7 +834,7 @@ func r04_3(c *Ctx) {
 	// Replay gets this subscription
 	rOK := false
 	for _, a := range lp.tryReplay.Call.Args {
-		if b, ok := isFieldLoad(a, "subscription", "Subscription"); ok && cellHoldsOnly(rootAddr(b), sub) {
+		if b, ok := isFieldLoad(a, "~", "type:Subscription"); ok && cellHoldsOnly(rootAddr(b), sub) {
 			rOK = true
 		}
 	}
@@ -918,7 +918,7 @@ func r04_3(c *Ctx) {
 	// (2) on a genuine error: send error on its done, close it, no insert
 	closers := subscriberClosers(P)
 	isDoneOfSub := func(v ssa.Value) bool {
-		b, ok := isFieldLoad(v, "subscription", "done")
+		b, ok := isFieldLoad(v, "~", "type:subscriber")
 		return ok && cellHoldsOnly(rootAddr(b), sub)
 	}
 	for _, g := range genuine {
@@ -964,7 +964,7 @@ func r07_1(c *Ctx) {
 			continue
 		}
 		var ownChans []ssa.Value
-		eachInstr(fn, func(in ssa.Instruction) {
+		eachInstrDeep(fn, func(in ssa.Instruction) {
 			if m, ok := in.(*ssa.MakeChan); ok {
 				ownChans = append(ownChans, m)
 			}
@@ -984,7 +984,7 @@ func r07_1(c *Ctx) {
 			return false
 		}
 		n := 0
-		eachInstr(fn, func(in ssa.Instruction) {
+		eachInstrDeep(fn, func(in ssa.Instruction) {
 			switch x := in.(type) {
 			case *ssa.Select:
 				n++
@@ -1033,7 +1033,7 @@ func r07_2(c *Ctx) {
 	fn := jp.loop
 	closers := subscriberClosers(P)
 	var closedDefer, subsDefer *ssa.Defer
-	eachInstr(fn, func(in ssa.Instruction) {
+	eachInstrDeep(fn, func(in ssa.Instruction) {
 		d, ok := in.(*ssa.Defer)
 		if !ok {
 			return
@@ -1065,13 +1065,22 @@ func closesAllSubscribers(f *ssa.Function, closers map[*ssa.Function]int) bool {
 		return false
 	}
 	ok := false
-	eachInstr(f, func(in ssa.Instruction) {
+	eachInstrDeep(f, func(in ssa.Instruction) {
 		if closesValue(in, closers, func(v ssa.Value) bool { _, k := rangeKeyOverJoeMap(v, "subscribers"); return k }) {
 			ok = true
 		}
 	})
-	// no early exit from the range other than exhaustion: the only loop exit is the range's ok==false
-	return ok && len(returnsOf(f)) == 1
+	// no early exit from the range other than exhaustion: the only return is the one after the range
+	// (a return under `len(j.subscribers) == 0` releases nothing because there is nothing to release)
+	isLenSubs := isLenCallOf(func(v ssa.Value) bool { return isJoeField(v, "subscribers") })
+	n := 0
+	for _, r := range returnsOf(f) {
+		if intGuard(f, r.Block(), isLenSubs, 0, 0, 0) {
+			continue
+		}
+		n++
+	}
+	return ok && n == 1
 }
 
 func r07_3(c *Ctx) {
@@ -1139,7 +1148,7 @@ func r07_4(c *Ctx) {
 		return
 	}
 	n := 0
-	eachInstr(fn, func(in ssa.Instruction) {
+	eachInstrDeep(fn, func(in ssa.Instruction) {
 		cl, ok := isBuiltin(in, "close")
 		if !ok || !isJoeField(cl.Common().Args[0], "done") {
 			return
@@ -1151,7 +1160,7 @@ func r07_4(c *Ctx) {
 		name := fnLabel(fn) + ":close(j.done)"
 		// dominated by a defer of a closure that recovers and assigns ErrProviderClosed to the result
 		good := false
-		eachInstr(fn, func(d ssa.Instruction) {
+		eachInstrDeep(fn, func(d ssa.Instruction) {
 			df, ok := d.(*ssa.Defer)
 			if !ok || !instrDominates(df, in) {
 				return
@@ -1167,7 +1176,7 @@ func r07_4(c *Ctx) {
 				return
 			}
 			var rec ssa.Value
-			eachInstr(f, func(x ssa.Instruction) {
+			eachInstrDeep(f, func(x ssa.Instruction) {
 				if b, ok := isBuiltin(x, "recover"); ok {
 					rec = b.Value()
 				}
@@ -1176,7 +1185,7 @@ func r07_4(c *Ctx) {
 				return
 			}
 			// store of ErrProviderClosed into the captured result under recover() != nil
-			eachInstr(f, func(x ssa.Instruction) {
+			eachInstrDeep(f, func(x ssa.Instruction) {
 				st, ok := x.(*ssa.Store)
 				if !ok || !isGlobalLoad(st.Val, "ErrProviderClosed") {
 					return
@@ -1224,7 +1233,7 @@ func r07_4(c *Ctx) {
 	}
 	// Shutdown's wait: select on j.closed and ctx.Done(); returns ctx.Err() on the latter
 	var sel *ssa.Select
-	eachInstr(fn, func(in ssa.Instruction) {
+	eachInstrDeep(fn, func(in ssa.Instruction) {
 		if s, ok := in.(*ssa.Select); ok {
 			sel = s
 		}
@@ -1252,7 +1261,7 @@ func r07_5(c *Ctx) {
 			continue
 		}
 		var initCall ssa.Instruction
-		eachInstr(fn, func(in ssa.Instruction) {
+		eachInstrDeep(fn, func(in ssa.Instruction) {
 			if call, ok := in.(*ssa.Call); ok {
 				if callee := call.Call.StaticCallee(); callee != nil && callsOnceDo(callee) && initCall == nil {
 					initCall = in
@@ -1261,7 +1270,7 @@ func r07_5(c *Ctx) {
 		})
 		name := fnLabel(fn) + ":init-first"
 		bad := false
-		eachInstr(fn, func(in ssa.Instruction) {
+		eachInstrDeep(fn, func(in ssa.Instruction) {
 			v, ok := in.(ssa.Value)
 			if !ok {
 				return
@@ -1289,7 +1298,7 @@ func callsOnceDo(f *ssa.Function) bool {
 	if f.Blocks == nil {
 		return false
 	}
-	eachInstr(f, func(in ssa.Instruction) {
+	eachInstrDeep(f, func(in ssa.Instruction) {
 		if _, ok := isStaticCall(in, "(*sync.Once).Do"); ok {
 			r = true
 		}
@@ -1310,7 +1319,7 @@ func r07_6(c *Ctx) {
 		if !reach[fn] || !isJoeCode(P, fn) {
 			continue
 		}
-		eachInstr(fn, func(in ssa.Instruction) {
+		eachInstrDeep(fn, func(in ssa.Instruction) {
 			bad := ""
 			switch x := in.(type) {
 			case *ssa.Select:
@@ -1324,7 +1333,7 @@ func r07_6(c *Ctx) {
 			case *ssa.Send:
 				// allowed: sends on subscriber channels (R06.2) and on the reply channel (R07.3), both buffered (R03.2)
 				if !isSubscriberType(x.Chan.Type()) {
-					if _, ok := isFieldLoad(x.Chan, "publishedMessage", "replayerErr"); !ok {
+					if _, ok := isFieldLoad(x.Chan, "~", "type:chan<- error"); !ok {
 						bad = "a send on a channel that is neither a subscriber's nor the reply channel"
 					}
 				}
@@ -1497,7 +1506,7 @@ func r17_2(c *Ctx) {
 				return stopPath
 			}
 			if st, ok := in.(*ssa.Store); ok {
-				if _, ok := isFieldSel(st.Addr, "messageWithTopics", "message"); ok {
+				if _, ok := isFieldSel(st.Addr, "~", "type:*Message"); ok {
 					stored = true
 				}
 			}
@@ -1558,7 +1567,7 @@ func r17_2(c *Ctx) {
 						sent = true
 					}
 					if st, ok := in.(*ssa.Store); ok {
-						if _, ok := isFieldSel(st.Addr, "messageWithTopics", "message"); ok {
+						if _, ok := isFieldSel(st.Addr, "~", "type:*Message"); ok {
 							stored = true
 						}
 					}
@@ -1589,7 +1598,7 @@ func r17_3(c *Ctx) {
 			continue
 		}
 		var invokes []ssa.CallInstruction
-		eachInstr(fn, func(in ssa.Instruction) {
+		eachInstrDeep(fn, func(in ssa.Instruction) {
 			for _, m := range []string{"Put", "Replay"} {
 				if ci, ok := isInvoke(in, "sse", "Replayer", m); ok {
 					invokes = append(invokes, ci)
@@ -1600,7 +1609,7 @@ func r17_3(c *Ctx) {
 			name := fnLabel(fn) + ":invoke(Replayer." + inv.Common().Method.Name() + ")"
 			good := false
 			var why string
-			eachInstr(fn, func(d ssa.Instruction) {
+			eachInstrDeep(fn, func(d ssa.Instruction) {
 				df, ok := d.(*ssa.Defer)
 				if !ok || !instrDominates(df, inv) {
 					return
@@ -1652,7 +1661,7 @@ func r17_3(c *Ctx) {
 // *Replayer parameter and a replayPanic value through an *error parameter.
 func recoverDisables(h *ssa.Function) bool {
 	var rec ssa.Value
-	eachInstr(h, func(x ssa.Instruction) {
+	eachInstrDeep(h, func(x ssa.Instruction) {
 		if b, ok := isBuiltin(x, "recover"); ok {
 			rec = b.Value()
 		}
@@ -1661,7 +1670,7 @@ func recoverDisables(h *ssa.Function) bool {
 		return false
 	}
 	nilled, marked := false, false
-	eachInstr(h, func(x ssa.Instruction) {
+	eachInstrDeep(h, func(x ssa.Instruction) {
 		st, ok := x.(*ssa.Store)
 		if !ok || !guardedByNil(h, st.Block(), func(v ssa.Value) bool { return v == rec }, false) {
 			return
@@ -1710,7 +1719,7 @@ func r17_4(c *Ctx) {
 
 func firstOf(fn *ssa.Function, pred func(ssa.Instruction) bool) ssa.Instruction {
 	var out ssa.Instruction
-	eachInstr(fn, func(in ssa.Instruction) {
+	eachInstrDeep(fn, func(in ssa.Instruction) {
 		if out == nil && pred(in) {
 			out = in
 		}
